@@ -15,7 +15,7 @@ PROVED = ("strict weak ordering (irreflexive, transitive, incomparability transi
           "HasRootComponent(p) is false iff p does not start with '/'; GetFilename(Append(d, n)) = n for every d "
           "without root component and every non-empty '/'-free n; Append(GetDirectory p, GetFilename p) succeeds and "
           "PathsAreEqual to p for every p without root component (trailing slash and empty path included); "
-          "ExtensionMatches(ChangeFileExtension(f, e), e') for every '/'-free f (empty, '.', '..' included), e = s or "
+          "ExtensionMatches(ChangeFileExtension(f, e), e') for EVERY path f (directories, roots, empty included), e = s or "
           "'.'+s with s non-empty and free of '.' and '/', e' equal to e ignoring case; "
           "IsPowerOf2 exact on all v<2^32; Log2OfPowerOf2 exact on the 32 powers; translated "
           "IsPowerOf2/Log2OfPowerOf2 equal the model")
@@ -23,7 +23,7 @@ PARTIAL = ("the path laws are theorems about the model of std::experimental::fil
            "correspondence and the direct oracles); join and re-join laws are proved for paths without root component "
            "only — the unrestricted statements are refuted in Lean (C19_filename_of_join_full_fails: Append(\"//\",\"b\") "
            "has file name \"//b\"; C19_split_rejoin_full_fails: re-joining \"/\" is refused) and the library agrees; "
-           "the extension law is proved for '/'-free f, not for f with directory parts")
+           "the extension law needs e to be an extension in the library's sense (\"x.y\" is not: the new extension is \".y\")")
 TRUSTED = ["model of std::experimental::filesystem::path (Op2Model/Path.lean) — validated exhaustively over small strings",
            "glibc C-locale tolower/toupper table (Op2Model/Str.lean) — validated over all 256 bytes"]
 ASSUMPTIONS = ["std::sort returns a permutation of its input sorted w.r.t. the comparator (theorem covers every such result)"]
